@@ -18,6 +18,12 @@ GEO_ASSUME = [
     "u64 <-> (base cell, i, j) bit de-interleaving of the harness (checked by the C18 scenario)",
 ]
 
+BMOC_ASSUME = [
+    "TLC / SANY and the CommunityModules Json/IOUtils are correct",
+    "the harness's projection of a BMOC (its own 6-line decoder of the raw u64 entries: sentinel bit, flag bit, base-4 path) and "
+    "BMOCBuilderUnsafe::push / to_bmoc used to build operands",
+]
+
 PROPS = {
     "C01": {
         "level": "model_checking",
@@ -207,6 +213,50 @@ PROPS = {
              "trace_module": "Trace_Bmoc", "trace_cfg": "Trace_Bmoc.cfg", "exhaustive": True, "clauses": ["panic", "dmax", "semantics", "operand_wellformed"]},
             {"kind": "rec", "scenario": "C08", "count": {"quick": 3000, "thorough": 60000}, "trace_module": "Trace_Bmoc", "trace_cfg": "Trace_Bmoc.cfg",
              "shards": 10, "clauses": ["panic", "dmax", "semantics", "operand_wellformed"], "nontrivial": lambda ev: ev["ev"] == "op"},
+        ],
+    },
+    "C09": {
+        "level": "model_checking",
+        "claim": "Well-formedness (depth <= dmax, base cell < 12, strictly increasing z-order with no nesting) and the agreement of all views are "
+                 "clauses of the BMOC trace specification, evaluated on EVERY BMOC that enters a register in operation histories: outputs of "
+                 "cone / elliptical cone / polygon queries, of both builders and of not/and/or/xor applied to them in sequences. Views: the entries "
+                 "seen through into_iter equal the harness's independent decoding, each raw u64 equals the specification's Raw() digit string, "
+                 "deep_size and to_ranges (as big naturals) equal DeepSizeBig / RangesOf (maximal runs: disjoint, non adjacent), flat_iter / "
+                 "to_flat_array / flat_iter_cell equal the expansion in z-order with the covering entry's flag, size_hint is exact. MC_Bmoc "
+                 "establishes at model level that Canonical(any reachable forest) is well formed and packed.",
+        "rule": "events = query / fixed / new / op / view over registers in blocks of ~16 events (histories); results above 250 cells are not "
+                "traced; non-trivial = distinct view and op events",
+        "assumptions": BMOC_ASSUME,
+        "stages": [
+            {"kind": "mc", "module": "MC_Bmoc", "cfg": "MC_Bmoc_flags.cfg", "workers": 6},
+            {"kind": "gentrace", "module": "Gen_Bmoc", "cfg": {"quick": "Gen_Bmoc_cells.cfg", "thorough": "Gen_Bmoc_cells.cfg"}, "scenario": "BMOC",
+             "trace_module": "Trace_Bmoc", "trace_cfg": "Trace_Bmoc.cfg", "exhaustive": True,
+             "clauses": ["wellformed", "entries", "raw_encoding", "deep_size", "ranges", "flat", "operand_wellformed"]},
+            {"kind": "rec", "scenario": "C09", "count": {"quick": 4000, "thorough": 80000}, "trace_module": "Trace_Bmoc", "trace_cfg": "Trace_Bmoc.cfg",
+             "shards": 10, "clauses": ["wellformed", "entries", "raw_encoding", "deep_size", "ranges", "flat", "operand_wellformed"],
+             "nontrivial": lambda ev: ev["ev"] in ("op", "view", "query", "fixed")},
+        ],
+    },
+    "C15": {
+        "level": "model_checking",
+        "claim": "The fixed-depth builder must return exactly the set of pushed cells with the requested flag (semantic equality with the forest "
+                 "of the pushed set), None iff nothing was pushed; pack must keep the cell-to-state map and leave no four full siblings; lower-depth "
+                 "must produce Lower(Sem) (coarse cell kept iff it contained something, full iff entirely full). TLC enumerates every push sequence "
+                 "of length <= 3 (4) over 6 (8) cells of depth 1 for each capacity 1..4 (1..5) and flag; the buffer being private, the harness "
+                 "replays every PREFIX on a fresh builder so that the abstract state is compared after each push; every cell list of the flagged "
+                 "universe (packed and unpacked presentations) goes through pack / lower at every target depth. Long seeded sequences (sorted, "
+                 "reverse, random, clustered runs aligned or not, duplicates, capacities 1..1000, depths to 29) are validated by the trace spec.",
+        "rule": "events = fixed (pushes, capacity, flag, result), pack, lower; non-trivial = every distinct event with at least one pushed / source cell",
+        "assumptions": BMOC_ASSUME,
+        "stages": [
+            {"kind": "mc", "module": "MC_Bmoc", "cfg": "MC_Bmoc_flags.cfg", "workers": 6},
+            {"kind": "gentrace", "module": "Gen_Bmoc", "cfg": {"quick": "Gen_Bmoc_pushes.cfg", "thorough": "Gen_Bmoc_pushes_thorough.cfg"}, "scenario": "BMOC",
+             "trace_module": "Trace_Bmoc", "trace_cfg": "Trace_Bmoc.cfg", "exhaustive": True},
+            {"kind": "gentrace", "module": "Gen_Bmoc", "cfg": {"quick": "Gen_Bmoc_cells.cfg", "thorough": "Gen_Bmoc_cells.cfg"}, "scenario": "BMOC",
+             "trace_module": "Trace_Bmoc", "trace_cfg": "Trace_Bmoc.cfg", "exhaustive": True,
+             "clauses": ["panic", "dmax", "wellformed", "same_map", "no_four_full_siblings", "lowered_map", "packed_if_asked", "operand_wellformed"]},
+            {"kind": "rec", "scenario": "C15", "count": {"quick": 4000, "thorough": 80000}, "trace_module": "Trace_Bmoc", "trace_cfg": "Trace_Bmoc.cfg",
+             "shards": 10, "nontrivial": lambda ev: ev["ev"] in ("fixed", "pack", "lower")},
         ],
     },
 }
